@@ -93,21 +93,6 @@ fn strategy_chained(vd: &'static ViewDef) -> impl Fn(Tier) -> BoxedStrategy<Case
             .boxed()
     }
 }
-/// replace the Echo leaf of a single-window view by `inner`
-fn rebase(s: &Spec, inner: &Spec) -> Spec {
-    let mut v = serde_json::to_value(s).expect("spec to json");
-    fn walk(v: &mut serde_json::Value, inner: &serde_json::Value) {
-        match v {
-            serde_json::Value::String(x) if x == "Echo" => *v = inner.clone(),
-            serde_json::Value::Array(a) => a.iter_mut().for_each(|x| walk(x, inner)),
-            serde_json::Value::Object(o) => o.values_mut().for_each(|x| walk(x, inner)),
-            _ => {}
-        }
-    }
-    walk(&mut v, &serde_json::to_value(inner).expect("spec to json"));
-    serde_json::from_value(v).expect("json to spec")
-}
-
 fn strategy(vd: &'static ViewDef, max_exp: u32) -> impl Fn(Tier) -> BoxedStrategy<Case> + Send + Sync {
     move |tier: Tier| {
         let long = strategy_long(vd);
